@@ -265,6 +265,12 @@ namespace GeographicLib {
                 dmsa.substr(beg, end - beg);
               break;
             }
+            if (npiece >= 3) {
+              // ipieces and fpieces hold d, m, s only
+              errormsg = "More than 3 DMS components in "
+                + dmsa.substr(beg, end - beg);
+              break;
+            }
             k = npiece;
           }
           if (unsigned(k) == npiece - 1) {
